@@ -203,8 +203,11 @@ fn do_agg(cfg: &Cfg, p: &ProveNextLayerParams, l: &Item, r: &Item, mode: &CacheM
                             }
                             let stale = slots[*s].for_circuit.is_some_and(|x| x != pair_id);
                             let had = slots[*s].cache.is_some();
+                            let before = slots[*s].cache.as_ref().map(|c| Rc::as_ptr(&c.circuit_prover_data));
                             let c = call(Some(&mut slots[*s].cache));
-                            if !had && slots[*s].cache.is_some() {
+                            let after = slots[*s].cache.as_ref().map(|c| Rc::as_ptr(&c.circuit_prover_data));
+                            if after.is_some() && after != before {
+                                // the call (re)populated the slot: from now on it belongs to this pair
                                 slots[*s].for_circuit = Some(pair_id);
                             }
                             (twin, Some(c), stale && had)
@@ -249,6 +252,13 @@ pub fn gen_history(rng: &mut Rng, tier_steps: usize) -> HistorySpec {
         1 => {
             steps.insert(0, Step::Agg(2, 2, CacheMode::Build(0)));
             steps.insert(1, Step::Agg(3, 3, CacheMode::Reuse(0)));
+        }
+        2 => {
+            // one slot shared along A, B, A with B of a different size (a miss that refreshes the
+            // slot), as a depth-first aggregation schedule does
+            steps.insert(0, Step::Agg(0, 1, CacheMode::Build(0)));
+            steps.insert(1, Step::Agg(2, 2, CacheMode::Reuse(0)));
+            steps.insert(2, Step::Agg(0, 1, CacheMode::Reuse(0)));
         }
         _ => {}
     }
